@@ -17,13 +17,24 @@ def _hdr_hash():
     serializeOp): its cache key must cover the repo headers, not only the library archive."""
     from translate import serialops
     h = hashlib.sha256()
-    for fn in ("serial_codec.hpp", "serial_objects.hpp"):
+    for fn in ("serial_codec.hpp", "serial_objects.hpp", "serial_probes.hpp"):
         h.update(open(os.path.join(vlib.VERIF, "harness", fn), "rb").read())
     for p in serialops._sources(vlib.REPO):
         if p.endswith(".hpp"):
             h.update(p.encode())
             h.update(open(p, "rb").read())
     return h.hexdigest()[:16]
+
+
+def _probe_env():
+    """The two reproduced members on `knownUnserialized` (Props/C11.lean) have probes in property mode.  While an
+    entry is on that list the loss is the documented state of the unchanged tree and the probe only counts it;
+    once the member is serialized `exceptions_tight` forces the entry off the list and the probe is armed."""
+    txt = open(os.path.join(vlib.LEAN, "OpmVerif", "Props", "C11.lean")).read()
+    env = dict(os.environ)
+    env["C11_ARM_SLAVE_MODE"] = "0" if '("Opm::ScheduleStatic", "slave_mode"' in txt else "1"
+    env["C11_ARM_NETPRESS"] = "0" if '("Opm::EclipseState", "m_restart_network_pressures"' in txt else "1"
+    return env
 
 
 def run(ctx):
@@ -45,7 +56,7 @@ def run(ctx):
         ctx.stage_correspondence(exe, ["corr", ctx.seed, ctx.tier])
     # the property's own statement on the implementation: always run; it is also the search
     # for a concrete failing input when a proof, the table check or the correspondence broke
-    ctx.stage_property_mode(exe, ["prop", ctx.seed, ctx.tier])
+    ctx.stage_property_mode(exe, ["prop", ctx.seed, ctx.tier], env=_probe_env())
     return ctx.finish(trusted_base=TRUSTED)
 
 
